@@ -283,3 +283,57 @@ Proof.
   intros Hv. rewrite loop_item_fst. cbn [exec_item do_act snd o_res fst]. rewrite Hv.
   destruct (round_failed _); reflexivity.
 Qed.
+
+(* ---- the unguarded liveness statement is false of the node under its loop -------------------------- *)
+(* witnesses (checked by computation): initial height 1; the genesis block, a block at 1000 ms, then
+   (a) the execution layer fails ONCE, for block 3 / (b) a one-transaction batch stamped 500 ms;
+   the loop has ended; the next round offers well-formed responses and finds no process: nothing is written,
+   nothing is committed — although the very same responses commit height 3 as soon as a process runs again
+   (after a restart), and would have committed it had the steps been driven without the loop *)
+Definition rf_cfg : cfg := {| c_chain := 1; c_initial := 1; c_gtime := 0%Z; c_key := 7; c_gaddr := Addr 7 |}.
+Definition rf_exec_history : list act :=
+  [ ABoot (Some 1); AStep SNil (EOk 2); AStep (SBatch [5; 6] 1000%Z 1) (EOk 3); AStep (SBatch [7] 2000%Z 2) EErr ].
+Definition rf_time_history : list act :=
+  [ ABoot (Some 1); AStep SNil (EOk 2); AStep (SBatch [5; 6] 1000%Z 1) (EOk 3); AStep (SBatch [7] 500%Z 2) (EOk 4) ].
+
+Definition halted_for_good (c : cfg) (h : list act) (sq : seqresp) (e : execresp) : Prop :=
+  wf_cfg c /\
+  alive (lrun c h) = false /\                                            (* the loop has ended on its own *)
+  wf_resp c (lrun c h) sq e = true /\                                    (* the responses are well-formed again *)
+  o_res (snd (loop_item c (lrun c h) (AStep sq e))) = ONotRunning /\     (* ... and find no process *)
+  o_ws (snd (loop_item c (lrun c h) (AStep sq e))) = [] /\
+  img_of (fst (loop_item c (lrun c h) (AStep sq e))) = img_of (lrun c h) /\
+  g_height (img_of (lrun c (h ++ [AStep sq e; AStep sq e; AStep sq e]))) = g_height (img_of (lrun c h)) /\
+  (* only a restart resumes production *)
+  o_res (snd (loop_item c (lrun c (h ++ [ABoot None])) (AStep sq e))) = OCommitted (g_height (img_of (lrun c h)) + 1).
+
+Lemma loop_no_wedge_refuted_exec :
+  halted_for_good rf_cfg rf_exec_history (SBatch [8] 3000%Z 3) (EOk 5) /\
+  o_res (snd (loop_item rf_cfg (lrun rf_cfg (firstn 3 rf_exec_history)) (AStep (SBatch [7] 2000%Z 2) EErr))) = OErrExec.
+Proof.
+  split; [split; [split; [vm_compute; discriminate|reflexivity]|vm_compute; repeat split]|vm_compute; reflexivity].
+Qed.
+
+Lemma loop_no_wedge_refuted_time :
+  halted_for_good rf_cfg rf_time_history (SBatch [8] 3000%Z 3) (EOk 5) /\
+  o_res (snd (loop_item rf_cfg (lrun rf_cfg (firstn 3 rf_time_history)) (AStep (SBatch [7] 500%Z 2) (EOk 4)))) = OErrTime.
+Proof.
+  split; [split; [split; [vm_compute; discriminate|reflexivity]|vm_compute; repeat split]|vm_compute; reflexivity].
+Qed.
+
+Theorem loop_no_wedge_refuted :
+  exists c h sq e, halted_for_good c h sq e /\
+    (exists txs ts cur, last h (ABoot None) = AStep (SBatch txs ts cur) EErr) /\ Forall (fun a => a <> ABoot None) h.
+Proof.
+  exists rf_cfg, rf_exec_history, (SBatch [8] 3000%Z 3), (EOk 5).
+  split; [exact (proj1 loop_no_wedge_refuted_exec)|]. split; [do 3 eexists; reflexivity|].
+  repeat constructor; discriminate.
+Qed.
+
+Theorem loop_no_wedge_regressed_batch_refuted :
+  exists c h sq e, halted_for_good c h sq e /\
+    (exists txs ts cur r, last h (ABoot None) = AStep (SBatch txs ts cur) (EOk r) /\ txs <> []).
+Proof.
+  exists rf_cfg, rf_time_history, (SBatch [8] 3000%Z 3), (EOk 5).
+  split; [exact (proj1 loop_no_wedge_refuted_time)|]. do 4 eexists. split; [reflexivity|discriminate].
+Qed.
